@@ -20,15 +20,15 @@ Proof. unfold open_archiveF, open_archive. rewrite runF_expected. reflexivity. Q
 Lemma dir_effF_expected lim cur base d : dir_effF expected lim cur base d = dir_eff lim cur base d.
 Proof. reflexivity. Qed.
 
-Lemma file_effF_expected lim cur base d zn decl act crc op b sub :
-  file_effF expected lim cur base d zn decl act crc op b sub = file_eff lim cur base d zn decl act crc op b sub.
+Lemma file_effF_expected lim cur base d zn decl act crc op b rmok sub :
+  file_effF expected lim cur base d zn decl act crc op b rmok sub = file_eff lim cur base d zn decl act crc op b rmok sub.
 Proof.
   unfold file_effF, file_eff. cbv zeta. rewrite open_archiveF_expected. reflexivity.
 Qed.
 
-Lemma file_eff_ext lim cur base d zn decl act crc op b sub1 sub2 :
+Lemma file_eff_ext lim cur base d zn decl act crc op b rmok sub1 sub2 :
   (forall c b', sub1 c b' = sub2 c b') ->
-  file_eff lim cur base d zn decl act crc op b sub1 = file_eff lim cur base d zn decl act crc op b sub2.
+  file_eff lim cur base d zn decl act crc op b rmok sub1 = file_eff lim cur base d zn decl act crc op b rmok sub2.
 Proof. intros H. unfold file_eff. rewrite H. reflexivity. Qed.
 
 Lemma map_ext_Forall {A B} (f g : A -> B) l : Forall (fun x => f x = g x) l -> map f l = map g l.
@@ -36,7 +36,7 @@ Proof. induction 1; simpl; congruence. Qed.
 
 Lemma entry_effF_expected lim e : forall cur base, entry_effF expected lim cur base e = entry_eff lim cur base e.
 Proof.
-  induction e as [d|d zn decl act crc op b nested IH] using entry_ind'; intros cur base; simpl.
+  induction e as [d|d zn decl act crc op b rmok nested IH] using entry_ind'; intros cur base; simpl.
   - apply dir_effF_expected.
   - rewrite file_effF_expected. apply file_eff_ext. intros c b'. apply map_ext_Forall.
     eapply Forall_impl; [|exact IH]. intros e He. apply He.
